@@ -28,8 +28,10 @@ Section Tie.
   Variables CHUNK TAG : N.
   Variable ks : N -> N -> N.
   Variable tagc : N -> bytes -> bytes.
-  (* the labels of the panic sites that are unreachable (the model has none there): any label *)
-  Variables site_index site_unwrap : N.
+  (* the label of the panic site that is unreachable (the model has none there): any label.  The reachable ones carry
+     the model's labels: 416 (`CHUNK_SIZE - position`), 419 (`current_chunk_number += 1`), 524
+     (`i64::try_from(current).unwrap()` in the Current arm of seek). *)
+  Variable site_index : N.
 
   Notation ELI := (Src3e.EncryptionLayerInternal S).
   Notation FSR := (Src3e.EncryptionLayerFailSafeReader S).
@@ -39,9 +41,9 @@ Section Tie.
   Notation g_read_internal := (Src3e.read_internal S CHUNK TAG ks tagc fuel_rd 416 site_index 419).
   Notation g_read_internal_u := (Src3e.read_internal_unauthenticated S CHUNK TAG ks fuel_rd 416 site_index 419).
   Notation g_eli_read := (Src3e.eli_read S CHUNK TAG ks tagc fuel_rd 416 site_index 419).
-  Notation g_eli_seek := (Src3e.eli_seek S CHUNK TAG ks tagc fuel_rd 416 site_index site_unwrap).
+  Notation g_eli_seek := (Src3e.eli_seek S CHUNK TAG ks tagc fuel_rd 416 site_index 524).
   Notation g_read := (Src3e.elr_read S CHUNK TAG ks tagc fuel_rd 416 site_index 419).
-  Notation g_seek := (Src3e.elr_seek S CHUNK TAG ks tagc fuel_rd 416 site_index site_unwrap).
+  Notation g_seek := (Src3e.elr_seek S CHUNK TAG ks tagc fuel_rd 416 site_index 524).
   Notation g_fs_read := (Src3e.fs_read S CHUNK TAG ks tagc fuel_rd 416 site_index 419).
   Notation g_fs_new := (Src3e.EncryptionLayerFailSafeReader_new S CHUNK TAG ks fuel_rd).
   Notation m_load := (eload CHUNK TAG ks tagc S).
@@ -165,22 +167,30 @@ Section Tie.
   Proof. reflexivity. Qed.
 
   (* ---------- Seek::seek ---------- *)
-  (* the D20 guard of the Start arm, as translated *)
-  Definition start_ok (pos : N) : Prop := pos / CHUNK <= Src3e.U64_MAX / (CHUNK + TAG) - 1.
+  (* Since work package fixenc the model has the D20 guard of the Start arm and the i64 range tests of the Current /
+     End arms (EncLayer.eseek_start, eseek), so the three arms are EQUAL to the model for every argument: no range
+     premise is left.  The only premise is about the constants: CHUNK_TAG_SIZE <= u64::MAX, i.e. the compile-time
+     constant `u64::MAX / CHUNK_TAG_SIZE - 1` of the source does not underflow (the translator emits a Crash arm for
+     that subtraction; the model has none). *)
   Definition cts_fits : Prop := 1 <= Src3e.U64_MAX / (CHUNK + TAG).
+  (* the D20 guard of the Start arm, as translated (= EncLayer.start_in_range) *)
+  Definition start_ok (pos : N) : Prop := pos / CHUNK <= Src3e.U64_MAX / (CHUNK + TAG) - 1.
 
   Lemma notag2tag_src p : Src3e.no_tag_position_to_tag_position CHUNK TAG p = notag2tag CHUNK TAG p.
   Proof. reflexivity. Qed.
+  Lemma start_ok_model pos : start_ok pos <-> start_in_range CHUNK TAG pos = true.
+  Proof. unfold start_ok, start_in_range, U64MAX, Src3e.U64_MAX, CTS. rewrite Bool.negb_true_iff, N.ltb_ge. reflexivity. Qed.
 
-  (* Start arm: guard passed -> exactly the model's eseek_start *)
-  Theorem enc_seek_start_sim fuel (x : ELI) pos : cts_fits -> start_ok pos ->
+  (* Start arm: exactly the model's eseek_start, for EVERY position *)
+  Theorem enc_seek_start_sim fuel (x : ELI) pos : cts_fits ->
     absr (g_eli_seek (Datatypes.S fuel) x (FromStart pos)) = m_seek_start (abs x) pos.
   Proof.
-    unfold cts_fits, start_ok. intros Hf Hok. destruct x as [i c cache cpos k].
-    unfold eseek_start. cbn [Src3e.eli_seek Src3e.eli_seek_loop]. unfold Src3e.CHUNK_TAG_SIZE.
+    unfold cts_fits. intros Hf. destruct x as [i c cache cpos k].
+    unfold eseek_start. cbn [Src3e.eli_seek Src3e.eli_seek_loop]. unfold Src3e.CHUNK_TAG_SIZE, U64MAX, CTS.
     destruct (N.ltb_spec (Src3e.U64_MAX / (CHUNK + TAG)) 1) as [?|_]; [lia|].
-    destruct (N.ltb_spec (Src3e.U64_MAX / (CHUNK + TAG) - 1) (pos / CHUNK)) as [?|_]; [lia|].
-    rewrite notag2tag_src. unfold CTS.
+    change (2 ^ 64 - 1) with Src3e.U64_MAX.
+    destruct (Src3e.U64_MAX / (CHUNK + TAG) - 1 <? pos / CHUNK); [reflexivity|].
+    rewrite notag2tag_src.
     unfold abs. cbn [Src3e.eli_inner Src3e.eli_cipher Src3e.eli_cache Src3e.eli_cache_pos Src3e.eli_chunk e_cpos e_chunk e_in e_cache].
     destruct (sk S i (FromStart (notag2tag CHUNK TAG pos / (CHUNK + TAG) * (CHUNK + TAG)))) as [i' [p|e|cr]];
       [|reflexivity|reflexivity].
@@ -193,7 +203,7 @@ Section Tie.
     rewrite <- Hl. destruct x3 as [i3 c3 cache3 cpos3 k3]. destruct r as [b|e|cr]; reflexivity.
   Qed.
 
-  (* Start arm: guard refused (D20 repair) -> InvalidInput and NOTHING is touched *)
+  (* Start arm: guard refused (D20 repair) -> InvalidInput and NOTHING is touched — in the source ... *)
   Theorem enc_seek_start_guard fuel (x : ELI) pos : cts_fits -> ~ start_ok pos ->
     g_eli_seek (Datatypes.S fuel) x (FromStart pos) = (x, Err EInval).
   Proof.
@@ -201,87 +211,73 @@ Section Tie.
     destruct (N.ltb_spec (Src3e.U64_MAX / (CHUNK + TAG)) 1) as [?|_]; [lia|].
     destruct (N.ltb_spec (Src3e.U64_MAX / (CHUNK + TAG) - 1) (pos / CHUNK)) as [_|?]; [reflexivity|lia].
   Qed.
+  (* ... and in the model *)
+  Theorem eseek_start_guard_model (s : estate S) pos : ~ start_ok pos -> m_seek_start s pos = (s, Err EInval).
+  Proof.
+    unfold start_ok, eseek_start, U64MAX, CTS. intros Hok. change (2 ^ 64 - 1) with Src3e.U64_MAX.
+    destruct (N.ltb_spec (Src3e.U64_MAX / (CHUNK + TAG) - 1) (pos / CHUNK)) as [_|?]; [reflexivity|lia].
+  Qed.
 
-  (* Current arm (D10 repair: the position is chunk number * CHUNK + cache position) *)
+  (* Current arm (D10 repair: the position is chunk number * CHUNK + cache position; `i64::try_from(current).unwrap()`
+     is the model's Crash 524), for EVERY state and offset *)
   Theorem enc_seek_current_sim fuel (x : ELI) d : cts_fits ->
-    let cur := e_chunk (abs x) * CHUNK + e_cpos (abs x) in
-    cur < 2 ^ 63 ->
-    (d <> 0%Z -> (0 <= Z.of_N cur + d)%Z -> start_ok (Z.to_N (Z.of_N cur + d))) ->
     absr (g_eli_seek (Datatypes.S (Datatypes.S fuel)) x (FromCur d)) = m_seek (abs x) (FromCur d).
   Proof.
-    intros Hf cur Hcur Hok. subst cur. destruct x as [i c cache cpos k].
-    unfold abs in Hcur, Hok |- *. cbn [Src3e.eli_chunk Src3e.eli_cache_pos e_chunk e_cpos] in Hcur, Hok.
-    unfold eseek. cbn [Src3e.eli_inner Src3e.eli_cipher Src3e.eli_cache Src3e.eli_cache_pos Src3e.eli_chunk e_chunk e_cpos].
+    intros Hf. destruct x as [i c cache cpos k].
+    unfold abs. unfold eseek. cbn [Src3e.eli_inner Src3e.eli_cipher Src3e.eli_cache Src3e.eli_cache_pos Src3e.eli_chunk e_chunk e_cpos].
     change (g_eli_seek (Datatypes.S (Datatypes.S fuel)) (Src3e.mkELI S i c cache cpos k) (FromCur d))
       with (if (d =? 0)%Z then (Src3e.mkELI S i c cache cpos k, Ok (k * CHUNK + cpos))
-            else if 2 ^ 63 <=? k * CHUNK + cpos then (Src3e.mkELI S i c cache cpos k, Crash site_unwrap)
+            else if 2 ^ 63 <=? k * CHUNK + cpos then (Src3e.mkELI S i c cache cpos k, Crash 524)
             else if (Z.of_N (k * CHUNK + cpos) + d <? 0)%Z then (Src3e.mkELI S i c cache cpos k, Err EInval)
             else g_eli_seek (Datatypes.S fuel) (Src3e.mkELI S i c cache cpos k)
                    (FromStart (Z.to_N (Z.of_N (k * CHUNK + cpos) + d)))).
-    destruct (Z.eqb_spec d 0) as [->|Hd]; [reflexivity|].
-    destruct (N.leb_spec (2 ^ 63) (k * CHUNK + cpos)) as [?|_]; [lia|].
-    unfold seek_target. destruct (Z.ltb_spec (Z.of_N (k * CHUNK + cpos) + d) 0) as [?|Hge]; [reflexivity|].
-    apply (enc_seek_start_sim fuel (Src3e.mkELI S i c cache cpos k)); [exact Hf | apply Hok; assumption].
+    destruct (d =? 0)%Z; [reflexivity|].
+    destruct (2 ^ 63 <=? k * CHUNK + cpos); [reflexivity|].
+    unfold seek_target. destruct (Z.of_N (k * CHUNK + cpos) + d <? 0)%Z; [reflexivity|].
+    exact (enc_seek_start_sim fuel (Src3e.mkELI S i c cache cpos k) _ Hf).
   Qed.
 
-  (* End arm (D9 / D1 repairs: end_pos_of_inner; a partial tag is InvalidData) *)
-  Theorem enc_seek_end_sim fuel (x : ELI) d : cts_fits -> (- 2 ^ 63 <= d)%Z ->
-    (forall i' ei ep, sk S (e_in (abs x)) (FromEnd 0) = (i', Ok ei) -> end_pos_of_inner CHUNK TAG ei = Ok ep ->
-       ep < 2 ^ 63 /\ ((0 <= Z.of_N ep + d)%Z -> start_ok (Z.to_N (Z.of_N ep + d)))) ->
+  Lemma i64_in_range_model z : Src3e.i64_in_range z = i64_fits z.
+  Proof. reflexivity. Qed.
+
+  (* End arm (D9 / D1 repairs: end_pos_of_inner; a partial tag is InvalidData; `i64::try_from(end_pos)` and
+     `checked_add` are the model's two InvalidInput tests), for EVERY state and offset *)
+  Theorem enc_seek_end_sim fuel (x : ELI) d : cts_fits ->
     absr (g_eli_seek (Datatypes.S (Datatypes.S fuel)) x (FromEnd d)) = m_seek (abs x) (FromEnd d).
   Proof.
-    intros Hf Hd Hok. destruct x as [i c cache cpos k]. unfold abs in Hok |- *. cbn [Src3e.eli_inner e_in] in Hok.
+    intros Hf. destruct x as [i c cache cpos k]. unfold abs.
     unfold eseek. cbn [Src3e.eli_inner Src3e.eli_cipher Src3e.eli_cache Src3e.eli_cache_pos Src3e.eli_chunk e_chunk e_cpos e_in e_cache].
     remember (Datatypes.S fuel) as f1 eqn:Hf1. unfold Src3e.eli_seek. cbn [Src3e.eli_seek_loop].
-    destruct (Z.ltb_spec 0 d) as [?|Hle]; [reflexivity|].
+    destruct (0 <? d)%Z; [reflexivity|].
     cbn [Src3e.eli_inner].
     destruct (sk S i (FromEnd 0)) as [i' [ei|e|cr]] eqn:Esk; [|reflexivity|reflexivity].
-    specialize (Hok i' ei). unfold end_pos_of_inner, CTS in *. unfold Src3e.CHUNK_TAG_SIZE.
+    unfold end_pos_of_inner, CTS. unfold Src3e.CHUNK_TAG_SIZE.
     unfold Src3e.set_eli_inner. cbn [Src3e.eli_inner Src3e.eli_cipher Src3e.eli_cache Src3e.eli_cache_pos Src3e.eli_chunk].
-    subst f1.
+    subst f1. change Src3e.i64_in_range with i64_fits.
     destruct (ei mod (CHUNK + TAG) =? 0).
-    - destruct (Hok _ eq_refl eq_refl) as [Hb Hs].
-      destruct (N.leb_spec (2 ^ 63) (ei / (CHUNK + TAG) * CHUNK)) as [?|_]; [lia|].
-      unfold Src3e.i64_in_range.
-      match goal with |- context [(Z.of_N ?X + d)%Z] => set (XX := X) in * end.
-      match goal with |- context [negb ?b] => assert (Hx : b = true) by lia; rewrite Hx end.
-      cbn [negb]. unfold seek_target.
-      destruct (Z.ltb_spec (Z.of_N XX + d) 0) as [?|Hge]; [reflexivity|].
-      apply (enc_seek_start_sim fuel (Src3e.mkELI S i' c cache cpos k)); [exact Hf | apply Hs; assumption].
+    - destruct (2 ^ 63 <=? ei / (CHUNK + TAG) * CHUNK); [reflexivity|].
+      destruct (negb (i64_fits _)); [reflexivity|].
+      unfold seek_target. destruct (_ <? 0)%Z; [reflexivity|].
+      exact (enc_seek_start_sim fuel (Src3e.mkELI S i' c cache cpos k) _ Hf).
     - destruct (ei mod (CHUNK + TAG) <? TAG); [reflexivity|].
-      destruct (Hok _ eq_refl eq_refl) as [Hb Hs].
-      destruct (N.leb_spec (2 ^ 63) (ei / (CHUNK + TAG) * CHUNK + (ei mod (CHUNK + TAG) - TAG))) as [?|_]; [lia|].
-      unfold Src3e.i64_in_range.
-      match goal with |- context [(Z.of_N ?X + d)%Z] => set (XX := X) in * end.
-      match goal with |- context [negb ?b] => assert (Hx : b = true) by lia; rewrite Hx end.
-      cbn [negb]. unfold seek_target.
-      match goal with |- context [(?z <? 0)%Z] => destruct (Z.ltb_spec z 0) as [?|Hge] end; [reflexivity|].
-      apply (enc_seek_start_sim fuel (Src3e.mkELI S i' c cache cpos k)); [exact Hf | apply Hs; assumption].
+      destruct (2 ^ 63 <=? ei / (CHUNK + TAG) * CHUNK + (ei mod (CHUNK + TAG) - TAG)); [reflexivity|].
+      destruct (negb (i64_fits _)); [reflexivity|].
+      unfold seek_target. destruct (_ <? 0)%Z; [reflexivity|].
+      exact (enc_seek_start_sim fuel (Src3e.mkELI S i' c cache cpos k) _ Hf).
   Qed.
 
   (* Seek::seek of EncryptionLayerReader is the EncryptionLayerInternal's *)
   Lemma elr_seek_is_eli_seek fuel (x : ELI) w : g_seek fuel x w = g_eli_seek fuel x w.
   Proof. reflexivity. Qed.
 
-  (* all three arms at once, under the range conditions of each arm *)
-  Definition seek_in_range (x : ELI) (w : whence) : Prop :=
-    match w with
-    | FromStart pos => start_ok pos
-    | FromCur d =>
-      let cur := e_chunk (abs x) * CHUNK + e_cpos (abs x) in
-      cur < 2 ^ 63 /\ (d <> 0%Z -> (0 <= Z.of_N cur + d)%Z -> start_ok (Z.to_N (Z.of_N cur + d)))
-    | FromEnd d =>
-      (- 2 ^ 63 <= d)%Z /\
-      forall i' ei ep, sk S (e_in (abs x)) (FromEnd 0) = (i', Ok ei) -> end_pos_of_inner CHUNK TAG ei = Ok ep ->
-        ep < 2 ^ 63 /\ ((0 <= Z.of_N ep + d)%Z -> start_ok (Z.to_N (Z.of_N ep + d)))
-    end.
-  Theorem enc_seek_sim fuel (x : ELI) w : cts_fits -> seek_in_range x w ->
+  (* all three arms at once: the translated seek IS the model's seek, for every state and every argument *)
+  Theorem enc_seek_sim fuel (x : ELI) w : cts_fits ->
     absr (g_seek (Datatypes.S (Datatypes.S fuel)) x w) = sk (EncReader CHUNK TAG ks tagc S) (abs x) w.
   Proof.
-    intros Hf Hr. rewrite elr_seek_is_eli_seek. cbn [EncReader sk]. destruct w as [pos|d|d]; cbn [seek_in_range] in Hr.
+    intros Hf. rewrite elr_seek_is_eli_seek. cbn [EncReader sk]. destruct w as [pos|d|d].
     - apply enc_seek_start_sim; assumption.
-    - destruct Hr as [H1 H2]. apply enc_seek_current_sim; assumption.
-    - destruct Hr as [H1 H2]. apply enc_seek_end_sim; assumption.
+    - apply enc_seek_current_sim; assumption.
+    - apply enc_seek_end_sim; assumption.
   Qed.
 
   (* ---------- the fail-safe reader ---------- *)
@@ -339,7 +335,7 @@ Section Tie.
   Qed.
   (* ---------- EncryptionLayerReader::new + initialize = enc_open ---------- *)
   Variable inner_init : st S -> st S * res unit.
-  Notation g_init := (Src3e.elr_initialize S CHUNK TAG ks tagc fuel_rd inner_init 416 site_index site_unwrap).
+  Notation g_init := (Src3e.elr_initialize S CHUNK TAG ks tagc fuel_rd inner_init 416 site_index 524).
   Theorem enc_open_src fuel i0 i1 x : cts_fits ->
     Src3e.EncryptionLayerReader_new S i0 (Some tt) = Ok x -> inner_init i0 = (i1, Ok tt) ->
     absr (g_init (Datatypes.S fuel) x) =
@@ -351,8 +347,7 @@ Section Tie.
     pose proof (enc_seek_start_sim fuel (Src3e.mkELI S i1 (Src3e.AesGcm256_new 0) [] 0 0) 0 Hf) as Hs.
     unfold enc_open. unfold abs in Hs. cbn [Src3e.eli_inner Src3e.eli_cipher Src3e.eli_cache Src3e.eli_cache_pos Src3e.eli_chunk] in Hs.
     rewrite <- Hs.
-    - destruct (g_eli_seek _ _ _) as [x' [p|e|cr]]; reflexivity.
-    - unfold start_ok. replace (0 / CHUNK) with 0 by (destruct CHUNK; reflexivity). lia.
+    destruct (g_eli_seek _ _ _) as [x' [p|e|cr]]; reflexivity.
   Qed.
   (* without decryption parameters the reader is not built *)
   Lemma enc_new_needs_key i0 : Src3e.EncryptionLayerReader_new S i0 None = Err EKey.
